@@ -91,6 +91,8 @@ pub fn event_spec() -> impl Strategy<Value = EventSpec> {
   )
 }
 
+pub static CLASS_SAMPLE: ClassSample = ClassSample::new();
+
 /// The record keys an event only carries when it has the attribute.
 pub const OPTIONAL_KEYS: &[&str] = &["message", "span_id", "parent_id", "thread_id", "thread_name"];
 
@@ -304,6 +306,9 @@ pub fn execute(c: &JsonCase) -> Result<CaseReport, Failure> {
   rep.nontrivial = strings.iter().any(|s| needs_json_escape(s));
   if rep.nontrivial {
     rep.class("json/needs_escape");
+  }
+  if rep.nontrivial && c.flatten && OPTIONAL_KEYS.iter().any(|k| ev.fields.contains_key(*k) && !attribute_present(&c.event, k)) {
+    CLASS_SAMPLE.offer(c);
   }
   if strings.iter().any(|s| s.len() > 8000) {
     rep.class("json/long_string");
